@@ -106,6 +106,8 @@ class GenTie:
         pick = None
         if path == "h:adapters.pick":
             path, pick, args = args[0], list(args[1]), args[2:]
+        elif path == "h:adapters.dictvals":
+            path, pick, args = args[0], ("dict", list(args[1])), args[2:]
         elif path == "h:adapters.isinst":
             path, pick, args = args[0], "class", args[1:]
         elif path == "h:props.C14.klass":
@@ -184,6 +186,10 @@ class GenTie:
             g = "''"
         if pick == "class":
             g = g if g in ("RE", "EXC") else "val"
+        elif isinstance(pick, tuple) and pick[0] == "dict":
+            if g.startswith("{") and g.endswith("}"):
+                kv = dict(x.split("=", 1) for x in g[1:-1].split(",") if "=" in x)
+                g = "|".join(kv.get(k, "?") for k in pick[1])
         elif pick is not None and g not in ("RE", "EXC", "None"):
             toks = g.split("|")
             try:
